@@ -22,7 +22,11 @@ package main
 // channel is still open the extra lines are appended (regular) / written into the pipe (fifo) / written as a new
 // file at the path, creating the directory first (absent, nodir).  Answer:
 //
-//	ok closed=<0|1> errors=<n> started=<0|1> lines=<hex list of the lines delivered>
+//	ok closed=<0|1> errors=<n> following=<0|1> lines=<hex list of the lines delivered>
+//
+// (following = listed as an active file and the channel still open when the extra lines are written).
+//	directory  the path is a directory (os.Open and Seek succeed, every Read fails with a non-EOF error: the follow
+//	           reader returns it, the scanner's OnError counts it, the loop ends)
 
 import (
 	"fmt"
@@ -70,6 +74,9 @@ func c15Prologue(f []string) string {
 		defer pipe.Close()
 		pipe.Write(join(content))
 	case "absent":
+	case "directory":
+		os.Mkdir(path, 0o755)
+		os.WriteFile(filepath.Join(path, "inner.log"), join(content), 0o644)
 	case "nodir":
 		path = filepath.Join(dir, "missing", "followed.log")
 	default:
@@ -90,9 +97,14 @@ func c15Prologue(f []string) string {
 	}
 	// the channel is closed right after the goroutine returned: give a failed New the time to get there
 	closed := 0
-	if started == 0 || c15Until(40*time.Millisecond, sink.isClosed) {
+	wait := 40 * time.Millisecond
+	if state == "directory" {
+		wait = time.Second // every Read fails: the goroutine is on its way out
+	}
+	if started == 0 || c15Until(wait, sink.isClosed) {
 		if c15Until(time.Second, sink.isClosed) {
 			closed = 1
+			started = 0
 		}
 	}
 	errors := b.ReadErrors()
@@ -106,6 +118,8 @@ func c15Prologue(f []string) string {
 			}
 		case "fifo":
 			pipe.Write(join(extra))
+		case "directory":
+			os.WriteFile(filepath.Join(path, "inner.log"), join(extra), 0o644)
 		default:
 			os.MkdirAll(filepath.Dir(path), 0o755)
 			os.WriteFile(path, join(extra), 0o644)
@@ -123,9 +137,9 @@ func c15Prologue(f []string) string {
 	if pipe != nil {
 		pipe.Close()
 	}
-	os.Remove(path)
+	os.RemoveAll(path)
 	c15Counters["prologue."+state]++
-	return fmt.Sprintf("ok closed=%d errors=%d started=%d lines=%s", closed, errors, started, HexListS(lines))
+	return fmt.Sprintf("ok closed=%d errors=%d following=%d lines=%s", closed, errors, started, HexListS(lines))
 }
 
 func c15PrologueCase(r *Rand, poll, reopen, tail bool, state string) string {
@@ -156,7 +170,7 @@ func c15PrologueCase(r *Rand, poll, reopen, tail bool, state string) string {
 
 func c15PrologueGenAll(r *Rand, tier string) []string {
 	var out []string
-	states := []string{"regular", "fifo", "absent", "nodir"}
+	states := []string{"regular", "fifo", "absent", "nodir", "directory"}
 	if tier == "thorough" {
 		for _, st := range states {
 			for m := 0; m < 8; m++ {
@@ -178,5 +192,7 @@ func c15PrologueGenAll(r *Rand, tier string) []string {
 	out = append(out, c15PrologueCase(r, false, true, r.Bool(), "absent"))
 	out = append(out, c15PrologueCase(r, r.Bool(), r.Bool(), true, "regular"))
 	out = append(out, c15PrologueCase(r, r.Bool(), r.Bool(), false, "regular"))
+	out = append(out, c15PrologueCase(r, false, r.Bool(), r.Bool(), "directory"))
+	out = append(out, c15PrologueCase(r, true, r.Bool(), r.Bool(), "directory"))
 	return out
 }
